@@ -2,7 +2,7 @@
 """Systematic mutation analysis of the checks (complements the hand-written seeded changes).
 
   mutate.py list                       enumerate the candidate mutants of /repo/src (JSON lines)
-  mutate.py run  [--sample N] [--seed S] [--slots K] [--frac F] [--only REGEX] --out FILE
+  mutate.py run  [--sample N] [--seed S] [--slots K] [--frac F] [--only REGEX] [--skip-from FILE] --out FILE
                                        apply each sampled mutant to a private clone of /repo, keep
                                        it only if it compiles and the 44 unit tests still pass,
                                        then run the quick checks (a fraction F of their runs,
@@ -273,6 +273,10 @@ def main():
         out = arg("--out")
         if os.path.exists(out):
             done = {json.loads(l)["id"] for l in open(out)}
+        skip = arg("--skip-from")
+        if skip and os.path.exists(skip):
+            seen = {(r.get("file"), r.get("before"), r.get("after")) for r in map(json.loads, open(skip))}
+            ms = [m for m in ms if (m["file"], m["before"], m["after"]) not in seen]
         rnd = random.Random(int(arg("--seed", "1")))
         rnd.shuffle(ms)
         n = int(arg("--sample", str(len(ms))))
